@@ -432,6 +432,7 @@ def run(ctx):
     # result code, not in a clean-up that trusts a counter bumped before the capacity test (shared with C05)
     importlib.import_module("rules.c05").counter_unchanged_on_refusal(db, rep, "D19-COUNTER-ON-REFUSAL")
     errno_cleared_before_judged(db, rep)
+    out_params_not_read(db, rep)
     # "returns program objects that can be compiled ... safely": whatever size or offset the text declares, the compile returns.
     # The two search-loop rules of C05 (shared): a loop that shifts by its induction variable, or searches the rotations of a
     # value, bounds its steps.
@@ -662,4 +663,65 @@ def errno_cleared_before_judged(db, rep, rule="D20-ERRNO-CLEARED"):
                       "the lines before it" % (f.name, c.line), line=c.line)
     # no floor of its own: that a range test exists at all is demanded by D16-NUMBERS-CHECKED (which reports its absence as a
     # violation); this rule judges the errno comparisons that are there
+    return n
+
+
+def out_params_not_read(db, rep, rule="D22-OUT-PARAM-NOT-READ"):
+    """The entry points return their results through out-parameters (`OrcProgram ***programs`, `char **log`, `int *n_errors`
+    ...): objects of the CALLER that need not be initialised.  A function that stores through such a parameter (itself or by
+    handing it to a helper of the file that does) must not read the pointee before it has stored into it: the condition
+    `if (*log)` decides on the caller's uninitialised variable whether errors are reported at all - with the natural
+    `char *log = NULL;` every error record is dropped, with a NULL argument the parser crashes.  Whether the caller wants the
+    result is asked of the POINTER."""
+    tu = db.tu("orcparse")
+    n = 0
+
+    def stores_through(g, pname, depth=0):
+        for st in g.walk():
+            if st.k in ("BinaryOperator",) and st.op == "=":
+                l = strip_casts(st.c[0])
+                if l is not None and l.k == "UnaryOperator" and l.op == "*" and strip_casts(l.c[0]) is not None and strip_casts(l.c[0]).k == "DeclRefExpr" and strip_casts(l.c[0]).name == pname:
+                    return True
+        if depth < 2:
+            for c in g.calls():
+                h = tu.fn.get(c.name or "")
+                if h is None or h.body is None or h is g:
+                    continue
+                for p_, a_ in zip(h.params, c.args()):
+                    sa = strip_casts(a_)
+                    if sa is not None and sa.k == "DeclRefExpr" and sa.name == pname and stores_through(h, p_["name"], depth + 1):
+                        return True
+        return False
+    for f in tu.main_functions():
+        for p_ in f.params:
+            if "*" not in (p_.get("ty") or "") or "const" in (p_.get("ty") or "").split("*")[0] and (p_.get("ty") or "").count("*") == 1:
+                continue
+            pn = p_["name"]
+            if not stores_through(f, pn):
+                continue
+            writes = [st for st in f.walk() if st.k == "BinaryOperator" and st.op == "=" and strip_casts(st.c[0]) is not None and strip_casts(st.c[0]).k == "UnaryOperator"
+                      and strip_casts(st.c[0]).op == "*" and strip_casts(strip_casts(st.c[0]).c[0]) is not None and strip_casts(strip_casts(st.c[0]).c[0]).k == "DeclRefExpr"
+                      and strip_casts(strip_casts(st.c[0]).c[0]).name == pn]
+            bad = None
+            for x in f.walk():
+                if not (x.k == "UnaryOperator" and x.op == "*" and strip_casts(x.c[0]) is not None and strip_casts(x.c[0]).k == "DeclRefExpr" and strip_casts(x.c[0]).name == pn):
+                    continue
+                par = x.parent
+                while par is not None and par.k in ("ParenExpr",):
+                    par = par.parent
+                if par is not None and par.k == "BinaryOperator" and par.op == "=" and any(y.id == x.id for y in par.c[0].walk()):
+                    continue                    # the store itself
+                if par is not None and par.k == "UnaryOperator" and par.op == "&":
+                    continue
+                if not any(f.dominates(w, x) for w in writes) and bad is None:
+                    bad = x
+            n += 1
+            rep.saw(f)
+            rep.check(bad is None, rule, where(f), "%s:*%s" % (f.name, pn), "an out-parameter's object is stored before it is read",
+                      "%s reads `*%s` (line %s) before anything has been stored there: `%s` is an out-parameter - the function stores its result through "
+                      "it - so the value read is whatever the caller's variable happened to hold; as the test for `does the caller want this result` it "
+                      "drops every error record for `char *log = NULL; orc_parse_full (code, &p, &log)` and dereferences NULL when the argument is NULL" %
+                      (f.name, pn, bad.line if bad else "?", pn), line=bad.line if bad else None)
+    if n < 5:
+        raise AnalysisBroken("only %d out-parameters found in orcparse.c" % n)
     return n
